@@ -7,6 +7,7 @@
     c07.parse <now> <content>            | L
     c07.seq <nsrc> <nops> (c <src> <stream> <off> | t <src> | s)…
                                          | per op: `c` / `corrupt` / `t` / `s <n> <src…order> L`
+    c07.conc <nsrc> <ncommits> <nsaves>  | event log: cs.<i>.<k> cd.<i>.<k> ss se L   (oracle only: real goroutines)
     c07.proto file <nf> (<act> <op>)… <hasold> T T
                                          | <n> <trace…> killed <0|1> disk <hex|none> load L
     c07.proto gen  <nf> (<act> <op>)… <hasold> <old> <new>
@@ -209,6 +210,72 @@ def handleSeq (args impl : List String) : Option (String × String) := do
   | none => some ("bad-impl", if impl.any (·.startsWith "panic") then "fail" else "bad-impl")
   | some (m, ok) => some (unwords m, if ok then "ok" else "fail")
 
+/-! ### c07.conc: commits racing a saver (real goroutines); the event log is the case's result -/
+
+inductive ConcEv
+  | cs (i k : Nat) | cd (i k : Nat) | ss | se (l : PM JobTable)
+
+def pConcEvs : Nat → List String → Option (List ConcEv)
+  | 0, ts => if ts = [] then some [] else none
+  | _ + 1, [] => some []
+  | f + 1, "ss" :: ts => (pConcEvs f ts).map (ConcEv.ss :: ·)
+  | f + 1, "se" :: ts => do
+    let (l, r) ← pLoaded ts
+    let rest ← pConcEvs f r
+    pure (.se l :: rest)
+  | f + 1, t :: ts =>
+    match t.splitOn "." with
+    | ["cs", a, b] => do
+      let i ← nat? a; let k ← nat? b
+      let rest ← pConcEvs f ts
+      pure (.cs i k :: rest)
+    | ["cd", a, b] => do
+      let i ← nat? a; let k ← nat? b
+      let rest ← pConcEvs f ts
+      pure (.cd i k :: rest)
+    | _ => none
+
+/-- offsets of a source after its first k commits: 10·j to stream "a" (j odd) / "b" (j even) -/
+def concState : Nat → CommitSnap.SMap
+  | 0 => []
+  | k + 1 => setOffset (concState k) (if (k + 1) % 2 = 1 then [97] else [98]) (10 * ((k + 1 : Nat) : Int))
+
+def bump (l : List Nat) (i : Nat) : List Nat :=
+  (l.zipIdx).map (fun (x, j) => if j + 1 = i then x + 1 else x)
+
+/-- source i's loaded entry must be its state after k commits for some k between the commits that
+    had returned when the save started and those that had started when it returned -/
+def concEntryOk (loaded : JobTable) (i lo hi : Nat) : Bool :=
+  match loaded.find? (fun j => j.sourceID == i) with
+  | none => lo == 0
+  | some j =>
+    j.filename == (seqJob (i, [])).filename &&
+    (List.range (hi + 1)).any (fun k => decide (lo ≤ k) && decide (1 ≤ k) &&
+      (canonJob j).offsets == (canonJob (seqJob (i, concState k))).offsets)
+
+def concCheck (nsrc : Nat) : List ConcEv → List Nat → List Nat → Option (List Nat) → Bool
+  | [], _, _, _ => true
+  | .cs i _ :: evs, started, done, lo => concCheck nsrc evs (bump started i) done lo
+  | .cd i _ :: evs, started, done, lo => concCheck nsrc evs started (bump done i) lo
+  | .ss :: evs, started, done, _ => concCheck nsrc evs started done (some done)
+  | .se l :: evs, started, done, lo =>
+    (match l, lo with
+     | .ok loaded, some los =>
+       loaded.all (fun j => decide (1 ≤ j.sourceID ∧ j.sourceID ≤ nsrc)) &&
+       (List.range nsrc).all (fun n => concEntryOk loaded (n + 1) (los.getD n 0) (started.getD n 0))
+     | _, _ => false) && concCheck nsrc evs started done none
+
+def handleConc (args impl : List String) : Option (String × String) := do
+  let (nsrc, r) ← pNat args
+  let (_, r) ← pNat r
+  let (_, r) ← pNat r
+  if r ≠ [] then none
+  match pConcEvs (impl.length + 1) impl with
+  | none => some ("bad-trace", if impl.any (·.startsWith "panic") then "fail" else "bad-impl")
+  | some evs =>
+    let z := List.replicate nsrc 0
+    some (unwords impl, if concCheck nsrc evs z z none then "ok" else "fail")
+
 /-! ### c07.proto: the save protocol under injected failures and kills -/
 
 def pOk : String → Option Bool := bool?
@@ -315,6 +382,7 @@ def handle (cmd : String) (args impl : List String) : Option (String × String) 
   else if cmd = "c07.parse" then handleParse args impl
   else if cmd = "c07.seq" then handleSeq args impl
   else if cmd = "c07.proto" then handleProto args impl
+  else if cmd = "c07.conc" then handleConc args impl
   else none
 
 end FileD.DrvC07
